@@ -992,9 +992,12 @@ func (r *runner) auto(inst *bpmn.Process, o Options, rng *rand.Rand) {
 func (r *runner) concurrent(ctx context.Context, inst *bpmn.Process, o Options, rng *rand.Rand) {
 	stop := make(chan struct{})
 	var noise sync.WaitGroup
-	for g := 0; g < 4; g++ {
+	for g := 0; g < 5; g++ {
 		noise.Add(1)
 		go func(g int) {
+			if g == 4 {
+				g = 1 // a second goroutine waiting for completion at the same time
+			}
 			defer noise.Done()
 			for {
 				select {
